@@ -233,9 +233,26 @@ def judge(obs, main, exp, exp_log):
     """-> (differs: bool, description)"""
     if "panic" in obs:
         return True, f"native run panicked: {obs['panic'][:200]}"
-    if obs.get("aborted"):
+    if obs.get("aborted") and not (isinstance(exp, (tuple, list)) and exp and exp[0] == "steps"):
         raise Unrealisable(f"the scenario could not be built through the public API: {obs.get('steps')}")
     outs = obs["runs"][0]["outcomes"]
+    if isinstance(exp, (tuple, list)) and exp and exp[0] == "outcomes":
+        diffs = []
+        got_all = [o["value"] for o in outs]
+        if norm(got_all) != norm(list(exp[1])) or [o["rule"] for o in outs] != list(exp[2]):
+            diffs.append(f"outcomes {norm(outs)} but the specification gives values {norm(exp[1])} for rules {exp[2]}")
+        if exp_log is not None and norm(obs["log"]) != norm(exp_log):
+            diffs.append(f"evaluation/call log {norm(obs['log'])} but the specification gives {norm(exp_log)}")
+        return bool(diffs), "; ".join(diffs)
+    if isinstance(exp, (tuple, list)) and exp and exp[0] == "steps":
+        diffs = []
+        if norm(obs.get("steps")) != norm(list(exp[1])):
+            diffs.append(f"builder calls answered {norm(obs.get('steps'))} but the specification gives {norm(exp[1])}")
+        elif len(exp) > 2 and exp[2] is not None and not obs.get("aborted"):
+            got_all = [[o["rule"], o["value"]] for o in outs]
+            if norm(got_all) != norm(exp[2]):
+                diffs.append(f"built ruleset gives {norm(got_all)} but the specification gives {norm(exp[2])}")
+        return bool(diffs), "; ".join(diffs)
     got = outs[main]["value"]
     if exp == ("same-as-literal",):
         exp = outs[main + 1]["value"]
@@ -290,10 +307,137 @@ def replay_file(run, path):
     exp = rp["expected"]
     if isinstance(exp, list):
         exp = tuple(exp)
-    differs, what = judge(obs, rp["main"], exp, rp["expected_log"])
+    try:
+        differs, what = judge(obs, rp["main"], exp, rp["expected_log"])
+    except Unrealisable as e:
+        print(f"replay {path}: {e}")
+        return 2
     if differs:
         print(f"VIOLATION property={rec['property']} replay={path}")
         print(f"  cell={rec['cell']} class={rec['class']}: {what}")
         return 1
     print(f"replay {path}: the scenario behaves as specified on the current tree")
     return 0
+
+
+# ------------------------------------------------------------------------------------------------ other families
+def two_calls_build(cex):
+    sc, C, names = e3.two_calls_scenario(cex)
+    case = cex["_case"]
+    pair = case.result
+    a = expected_result(C, pair.terms[0], None)
+    b = expected_result(C, pair.terms[1], None)
+    # the two calls are the items of one list node: the rule's outcome is the list of both values, or the first error
+    if "err" in a:
+        exp = a
+        exp_log = expected_log(C, case.log)[:1] if case.log and "UserFunctionError" in json.dumps(a) else []
+    elif "err" in b:
+        exp = b
+        exp_log = expected_log(C, case.log)
+    else:
+        exp = {"ok": {"t": "Vec", "v": [a["ok"], b["ok"]]}}
+        exp_log = expected_log(C, case.log)
+    return sc, 0, exp, exp_log
+
+
+ASCII_IDENT = __import__("re").compile(r"^[A-Za-z_][A-Za-z0-9_]*$")
+
+
+def builder_build(info, cex, keywords):
+    M = cex["_model"]
+    C = Concretizer(M)
+    op = info["op"]
+    S = lambda n: C.string(z3.String(n))       # noqa: E731
+    none_rule = lambda nm: {"op": "rule", "name": nm, "expr": lit({"t": "None"})}   # noqa: E731
+    if op in ("with_rule", "with_rules"):
+        names = [S(f"rule{i}.name") for i in range(info["k"])]
+        if len(set(names)) != len(names):
+            raise Unrealisable("pre-state with duplicate rule names")
+        ops = [none_rule(n) for n in names]
+        steps = [{"ok": True}] * len(names)
+        if op == "with_rule":
+            new = S("new.name")
+            ops.append(none_rule(new))
+            if new in names:
+                steps = steps + [{"err": {"variant": "DuplicateRuleName", "a": new}}]
+                final = None
+            else:
+                steps = steps + [{"ok": True}]
+                final = [[n, {"ok": {"t": "None"}}] for n in names + [new]]
+        else:
+            batch = [S(f"batch{i}.name") for i in range(info["m"])]
+            ops.append({"op": "rules", "rules": [{"name": b, "expr": lit({"t": "None"})} for b in batch]})
+            seen = list(names)
+            dup = None
+            for b in batch:
+                if b in seen:
+                    dup = b
+                    break
+                seen.append(b)
+            if dup is not None:
+                steps = steps + [{"err": {"variant": "DuplicateRuleName", "a": dup}}]
+                final = None
+            else:
+                steps = steps + [{"ok": True}]
+                final = [[n, {"ok": {"t": "None"}}] for n in seen]
+        return {"facts": {"t": "None"}, "builder": ops}, 0, ("steps", steps, final), None
+    if op == "add_function":
+        nm = S("newfn.name")
+        if not nm.isascii():
+            raise Unrealisable("non-ASCII function name in the model")
+        already = C.boolean(e3.fn_registered(z3.StringVal(nm)))
+        valid = bool(ASCII_IDENT.match(nm)) and nm not in keywords
+        ops, steps = [], []
+        if already:
+            if not valid:
+                raise Unrealisable("the model registers an ill-formed name")
+            ops.append({"op": "function", "name": nm, "results": []})
+            steps.append({"ok": True})
+        ops.append({"op": "function", "name": nm, "results": []})
+        if not valid:
+            steps.append({"err": {"variant": "InvalidFunctionName", "a": nm}})
+        elif already:
+            steps.append({"err": {"variant": "DuplicateFunctionName", "a": nm}})
+        else:
+            steps.append({"ok": True})
+        return {"facts": {"t": "None"}, "builder": ops}, 0, ("steps", steps, None), None
+    if op == "symbols":
+        a, b, q = S("symA.name"), S("symB.name"), S("query.name")
+        va, vb = C.value(z3.Const("symA.val", VAL)), C.value(z3.Const("symB.val", VAL))
+        ops = []
+        pre = {}
+        size = None
+        for d in M.decls():
+            if d.name() == "map_size_symbols":
+                size = C.integer(d(z3.IntVal(0)))
+        for nm in (q, b, a):        # the queried name first: entries the model does not need are dropped when the table is smaller
+            if nm not in pre and C.boolean(e3.sym_has(z3.StringVal(nm))) and (size is None or len(pre) < size):
+                pre[nm] = C.value(e3.sym_at(z3.StringVal(nm)))
+        if size is not None:
+            if size > 12:
+                raise Unrealisable(f"symbol table size {size} in the model")
+            for i in range(size - len(pre)):
+                pre[f"zz_filler_{i}"] = {"t": "None"}
+        for nm, v in pre.items():
+            ops.append({"op": "symbol", "name": nm, "value": v})
+        older = pre.get(q)
+        shape = info["shape"]
+        if shape == "insert_insert":
+            ops += [{"op": "symbol", "name": a, "value": va}, {"op": "symbol", "name": b, "value": vb}]
+        elif shape == "insert_append1":
+            ops += [{"op": "symbol", "name": a, "value": va}, {"op": "symbols", "entries": [[b, vb]]}]
+        else:
+            if a == b:
+                raise Unrealisable("a map with two equal keys")
+            ops += [{"op": "symbols", "entries": [[a, va], [b, vb]]}]
+        ops.append({"op": "rule", "name": "main", "expr": {"k": "Symbol", "n": q}})
+        if q == b:
+            exp = {"ok": vb}
+        elif q == a:
+            exp = {"ok": va}
+        elif older is not None:
+            exp = {"ok": older}
+        else:
+            exp = {"err": {"variant": "InvalidSymbol", "a": q}}
+        return {"facts": {"t": "None"}, "builder": ops}, 0, exp, None
+    raise Unrealisable(f"builder family {op}")
